@@ -201,6 +201,13 @@ def _swallow_ops(cfg):
         if not uses_ok:
             del probe_ref[r]
     arm_clear = {}
+    err_arm, err_flags = {}, set()
+    def_span = {}
+    for bb in cfg.order:
+        b = cfg.blocks[bb]
+        if b.call and b.call[0] in tracked and b.spans and b.spans[-1]:
+            def_span[b.call[0]] = b.spans[-1]
+    ret_is_result = bool(re.match(r"^(std::result::|core::result::)?Result<", f.locals.get("_0", "")))
     for bb in cfg.order:
         b = cfg.blocks[bb]
         o = []
@@ -255,6 +262,18 @@ def _swallow_ops(cfg):
             m = re.match(r"(_\d+) = discriminant\((_\d+)\);", s)
             if m and m.group(2) in tracked:
                 o.append(("clear", "live" + m.group(2)))
+                # an explicit `match` / `if let` on a Result: from its Err arm the function must not go on to
+                # report success (logging the error and carrying on is swallowing it)
+                x = m.group(2)
+                # (only the `match` on the call's own result: its scrutinee span starts where the defining call's
+                # span starts; discriminant reads inserted by drop elaboration sit at the end of the scope)
+                si = b.stmts.index(s)
+                sp = b.spans[si] if si < len(b.spans) else None
+                if sp and def_span.get(x) and sp[:3] == def_span[x][:3] and ret_is_result and b.switch_on and b.switch_on.strip() == m.group(1) and re.match(r"^(std::result::|core::result::)?Result<", f.locals.get(x, "")):
+                    arm = dict(b.succ).get("1")
+                    if arm:
+                        err_arm.setdefault(arm, []).append(("set", "err" + x))
+                        err_flags.add("err" + x)
         if b.is_return:
             for x in tracked:
                 if x != "_0":
@@ -263,7 +282,23 @@ def _swallow_ops(cfg):
             ops[bb] = o
     for bb, o in arm_clear.items():
         ops[bb] = o + ops.get(bb, [])
-    return ops, ["live" + x for x in sorted(tracked)], defs
+    if err_flags:
+        for bb, o in err_arm.items():
+            ops[bb] = o + ops.get(bb, [])
+        for bb in cfg.order:
+            b = cfg.blocks[bb]
+            if any(re.match(r"_0 = Result::<.*>::Ok\(", st) for st in b.stmts) or re.match(r"_0 = Result::<.*>::Ok\(", b.term or ""):
+                ops[bb] = ops.get(bb, []) + [("bad_if", fl) for fl in sorted(err_flags)]
+            # looking at the error's kind is a decision about that particular error (EOF while reading the WAL
+            # to its end, ...), not a blanket swallow
+            if b.call and re.search(r"io::Error::kind|Error::kind$", b.call[1]):
+                ops[bb] = ops.get(bb, []) + [("clear", fl) for fl in sorted(err_flags)]
+            # a new value in the same local starts afresh
+            for fl in err_flags:
+                x = fl[3:]
+                if (b.call and b.call[0] == x) or any(st.startswith(x + " = ") for st in b.stmts):
+                    ops[bb] = [("clear", fl)] + ops.get(bb, [])
+    return ops, ["live" + x for x in sorted(tracked)] + sorted(err_flags), defs
 
 
 def no_swallow(ctx):
@@ -477,7 +512,7 @@ def pre_meta_no_ht_write(ctx):
         if not calls:
             raise Unmatched("no calls in " + nm)
         qs.append(PQuery("%s: issues no HT write" % nm, cfg, {bb: [("bad", None)] for bb in bad}, [], {},
-                         key="%s:HT write before the meta switch-over" % nm))
+                         scenario="c04_commit_order", key="%s:HT write before the meta switch-over" % nm))
         rets = [bb for bb in cfg.order if cfg.blocks[bb].is_return]
         qs.append(PQuery("%s: return is reachable" % nm, cfg, {bb: [("bad", None)] for bb in rets}, [], {}, expect="sat"))
         enc.add("%s @ nomt/src/%s" % (nm, fh))
@@ -1070,7 +1105,7 @@ def no_swallow_sweep(ctx, shard=0, nshards=1):
                 continue
             short = re.sub(r"<impl at nomt/src/([^:]+):\d+:\d+: \d+:\d+>", r"<\1>", nm)
             qs.append(PMulti("%s: no fallible value is dropped uninspected" % short, cfg, ops, flags, {}, L=120,
-                             scenario=["c14_fault_sweep", "c14_ht_write_fails", "c14_ln_write_fails"], key="%s:swallowed result" % short))
+                             scenario=["c14_fault_sweep", "c14_ht_write_fails", "c14_ln_write_fails", "c14_bbn_write_fails_large"], key="%s:swallowed result" % short))
             enc.add("%s @ %s" % (short, f.file))
     if not qs:
         raise Unmatched("sweep shard %d/%d is empty" % (shard, nshards))
